@@ -19,6 +19,8 @@ mod corr_reduce;
 mod corr_lineage;
 mod corr_deadline;
 mod front;
+mod corr_chunks;
+mod meta_oracle;
 mod raw_api;
 
 #[global_allocator]
@@ -121,6 +123,8 @@ fn main() {
         "corr-deadline" => corr_deadline::corr(&mut ctx),
         "oracle-c05" => front::oracle(&mut ctx),
         "corr-front" => front::corr(&mut ctx),
+        "corr-chunks" => corr_chunks::corr(&mut ctx),
+        "oracle-meta" => meta_oracle::oracle(&mut ctx),
         "corr-raw" => raw_api::corr(&mut ctx),
         "oracle-c11" => raw_api::oracle(&mut ctx),
         "oracle-files" => corr_decision::oracle_files(&mut ctx),
